@@ -293,4 +293,129 @@ theorem call_origin_refines (F : Py.Fld K) (hF : ∀ a b : K, F.div a b = a / b)
   rw [call_origin F center h1 h2]
   exact apply_refines F hF ids pids types rs pts hne tm0 h44 hw
 
+/-! ### affine matrices (last row `0 0 0 1`): `w = 1` at every point, so `apply` never divides by zero -/
+
+def IsAffine (m : List (List K)) : Prop := Is44 m ∧ m.getD 3 [] = [0, 0, 0, 1]
+
+theorem wOf_affine {m : List (List K)} (h : IsAffine m) (p : Pt K) : wOf m p = 1 := by
+  have h2 := h.2
+  simp only [wOf, h2, dotK]
+  simp
+
+theorem aboutRoot_affine {m : List (List K)} (h : IsAffine m) (x y z : K) : IsAffine (aboutRoot m x y z) := by
+  refine ⟨is44_mmul _ _ (is44_mmul _ _ (is44_translate3d _ _ _)), ?_⟩
+  obtain ⟨a0, a1, a2, a3, b0, b1, b2, b3, c0, c1, c2, c3, d0, d1, d2, d3, rfl⟩ := is44_explicit h.1
+  have h3 := h.2
+  simp only [List.getD_eq_getElem?_getD, List.getElem?_cons_succ, List.getElem?_cons_zero, Option.getD_some, List.cons.injEq,
+    and_true] at h3
+  obtain ⟨rfl, rfl, rfl, rfl⟩ := h3
+  simp [aboutRoot, mmul, dotK, colK, translate3d]
+
+theorem affine_translate3d (tx ty tz : K) : IsAffine (translate3d tx ty tz) := ⟨is44_translate3d _ _ _, by simp [translate3d]⟩
+theorem affine_scale3d (sx sy sz : K) : IsAffine (scale3d sx sy sz) := ⟨is44_scale3d _ _ _, by simp [scale3d]⟩
+theorem affine_rotate3d_x (c s : K) : IsAffine (rotate3d_x c s) := ⟨is44_rotate3d_x _ _, by simp [rotate3d_x]⟩
+theorem affine_rotate3d_y (c s : K) : IsAffine (rotate3d_y c s) := ⟨is44_rotate3d_y _ _, by simp [rotate3d_y]⟩
+theorem affine_rotate3d_z (c s : K) : IsAffine (rotate3d_z c s) := ⟨is44_rotate3d_z _ _, by simp [rotate3d_z]⟩
+theorem affine_rotate3d (nx ny nz c s : K) : IsAffine (rotate3d nx ny nz c s) :=
+  ⟨is44_rotate3d _ _ _ _ _, by simp [rotate3d, rodrigues]⟩
+
+/-- the whole class on an AFFINE matrix, both centre modes in one statement: the matrix applied is `aboutRoot tm root` for
+`center ∈ {root, soma}` and `tm` otherwise -/
+def effective (center : String) (tm : List (List K)) (root : Pt K) : List (List K) :=
+  if center = "root" ∨ center = "soma" then aboutRoot tm root.1 root.2.1 root.2.2 else tm
+
+/-- **the generated `AffineTransform.__call__` on an affine matrix**: every tree with a root row (first parent −1) at position `< n`;
+row `i` ↦ `applyPoint (effective center tm root) (xᵢ, yᵢ, zᵢ)`; ids / parents / types / radii unchanged; no exception. -/
+theorem call_affine (F : Py.Fld K) (hF : ∀ a b : K, F.div a b = a / b) (center : String) (tm : List (List K)) (ha : IsAffine tm)
+    (ids pids types : List Int) (rs : List K) (pts : List (Pt K)) (hroot : (-1) ∈ pids) (root : Pt K)
+    (hr : pts[pids.idxOf (-1)]? = some root) :
+    affine_call F center tm ids pids types (colX pts) (colY pts) (colZ pts) rs
+      = some (ids, pids, types, colX (mapPts (effective center tm root) pts), colY (mapPts (effective center tm root) pts),
+          colZ (mapPts (effective center tm root) pts), rs) := by
+  by_cases hc : center = "root" ∨ center = "soma"
+  · simp only [effective, hc, if_true]
+    exact call_root_refines F hF center hc tm ha.1 ids pids types rs pts hroot root hr
+      (fun p _ => by rw [wOf_affine (aboutRoot_affine ha _ _ _)]; exact one_ne_zero)
+  · simp only [effective, hc, if_false]
+    have hne : pts ≠ [] := by rintro rfl; simp at hr
+    exact call_origin_refines F hF center (fun h => hc (Or.inl h)) (fun h => hc (Or.inr h)) tm ha.1 ids pids types rs pts hne
+      (fun p _ => by rw [wOf_affine ha]; exact one_ne_zero)
+
+/-! ### `TranslateOrigin.transform` -/
+
+theorem translate_origin_refines (F : Py.Fld K) (hF : ∀ a b : K, F.div a b = a / b) (ids pids types : List Int) (rs : List K)
+    (pts : List (Pt K)) (hroot : (-1) ∈ pids) (root : Pt K) (hr : pts[pids.idxOf (-1)]? = some root) :
+    translate_origin F ids pids types (colX pts) (colY pts) (colZ pts) rs
+      = some (ids, pids, types, colX (mapPts (translate3d (-root.1) (-root.2.1) (-root.2.2)) pts),
+          colY (mapPts (translate3d (-root.1) (-root.2.1) (-root.2.2)) pts),
+          colZ (mapPts (translate3d (-root.1) (-root.2.1) (-root.2.2)) pts), rs) := by
+  have hk : pids.idxOf (-1) < pts.length := by
+    by_contra hn
+    rw [List.getElem?_eq_none (by omega)] at hr
+    exact absurd hr (by simp)
+  have hne : pts ≠ [] := by rintro rfl; simp at hr
+  obtain ⟨x, y, z⟩ := root
+  have hrow : ∀ j : Int, Py.idx2 (pts.map fun p => [p.1, p.2.1, p.2.2, (1 : K)]) ((pids.idxOf (-1) : Nat) : Int) j
+      = Py.idx [x, y, z, (1 : K)] j := by
+    intro j
+    simp only [Py.idx2]
+    rw [Py.idx_nat _ _ (by simpa using hk)]
+    simp [hr]
+  obtain ⟨i0, i1, i2, _⟩ := idx_four x y z (1 : K)
+  have hap := apply_refines F hF ids pids types rs pts hne (translate3d (-x) (-y) (-z)) (is44_translate3d _ _ _)
+    (fun p _ => by rw [wOf_affine (affine_translate3d _ _ _)]; exact one_ne_zero)
+  simp only [translate_origin, translate_origin.body, Py.seq, Py.bind, root_index pids hroot, xyzw_refines, hrow, i0, i1, i2,
+    fneg_eq, translate3d_refines, hap, Py.finish, Option.map_some]
+
+/-! ### the constructors: which matrix, which centre -/
+
+theorem affine_init_eq (tm : List (List K)) (center : String) :
+    affine_init tm center none none = some (tm, center, [], ()) := rfl
+
+theorem translate_init_default (tx ty tz : K) :
+    translate_init tx ty tz [] = some (translate3d tx ty tz, defaultCenterAffineTransform, [], ()) := rfl
+
+theorem translate_init_center (tx ty tz : K) (c : String) :
+    translate_init tx ty tz [("center", c)] = some (translate3d tx ty tz, c, [], ()) := by
+  simp [translate_init, translate_init.body, Py.bind, Py.finish, translate3d_refines, Py.kwOnly, Py.Dict.getD, Py.Dict.get?, affine_init_eq]
+
+theorem scale_init_eq (sx sy sz : K) (c : String) :
+    scale_init sx sy sz c [] = some (scale3d sx sy sz, c, [], ()) := rfl
+
+theorem rotate_x_init_eq (c s : K) (cen : String) : rotate_x_init c s cen [] = some (rotate3d_x c s, cen, [], ()) := by
+  simp [rotate_x_init, rotate_x_init.body, Py.bind, Py.seq, Py.finish, rotate3d_x_refines, Py.kwOnly, affine_init_eq]
+theorem rotate_y_init_eq (c s : K) (cen : String) : rotate_y_init c s cen [] = some (rotate3d_y c s, cen, [], ()) := by
+  simp [rotate_y_init, rotate_y_init.body, Py.bind, Py.seq, Py.finish, rotate3d_y_refines, Py.kwOnly, affine_init_eq]
+theorem rotate_z_init_eq (c s : K) (cen : String) : rotate_z_init c s cen [] = some (rotate3d_z c s, cen, [], ()) := by
+  simp [rotate_z_init, rotate_z_init.body, Py.bind, Py.seq, Py.finish, rotate3d_z_refines, Py.kwOnly, affine_init_eq]
+/-- `Rotate(n, θ)`: the matrix `rotate3d(n, θ)` (the parameter `rot`), the stated centre, and — always — the deprecation warning of the
+`fmt` parameter (call site 0), because the constructor passes `fmt=` on -/
+theorem rotate_init_eq (rot : List (List K)) (cen : String) : rotate_init rot cen [] = some (rot, cen, [0], ()) := rfl
+
+/-! ### `Transforms.__call__`: left-to-right composition -/
+
+theorem transforms_call_refines {X : Type} [Inhabited X] (fs : List (X → Option X)) (x : X) :
+    transforms_call fs x = fs.foldlM (fun x f => f x) x := by
+  have key : ∀ (fs : List (X → Option X)) (v : transforms_call.V X),
+      Py.forEach transforms_call.for1 fs v
+        = match fs.foldlM (fun x f => f x) v.x with
+          | some y => .next { v with x := y, transform := fs.getLastD v.transform }
+          | none => .err := by
+    intro fs
+    induction fs with
+    | nil => intro v; rfl
+    | cons f fs ih =>
+      intro v
+      simp only [Py.forEach, transforms_call.for1, Py.bind, List.foldlM_cons]
+      cases hf : f v.x with
+      | none => simp
+      | some y =>
+        simp only [Option.bind_some, Option.bind_eq_bind]
+        rw [ih]
+        cases fs with
+        | nil => rfl
+        | cons g gs => simp [List.getLastD]
+  simp only [transforms_call, transforms_call.body, Py.seq, key]
+  cases fs.foldlM (fun x f => f x) x <;> rfl
+
 end RefineAffine
